@@ -5,6 +5,9 @@ VH=${VERIF_HOME:-$(cd "$(dirname "$0")/.." && pwd)}   # the /verif tree these to
 out=$VH/seeded/EQUIVALENT.txt
 : > $out.tmp
 for m in $VH/mutants/EQ-*.patch; do
+  # the Go build cache grows by every generated batch: trim it before the disk runs full
+  avail_gb=$(df --output=avail -BG / | tail -1 | tr -dc 0-9)
+  if [ "${avail_gb:-100}" -lt 30 ]; then GOFLAGS=-mod=mod GOTOOLCHAIN=local go clean -cache >/dev/null 2>&1; fi
   res=$(SUITE=1 TMO=900 $VH/tools/mutant.sh $m C01 C02 C03 C04 C05 C06 C07 C08 C09 C10 C11 C12 C13 C14 C15 C18 C20 2>&1 | grep -E '^\[|^suite' | sed 's/ violation line(s)//' | tr '\n' ' ')
   echo -e "$(basename $m)\t$res" | tee -a $out.tmp
 done
